@@ -93,6 +93,13 @@ pub fn ctx() -> &'static Ctx {
     CTX.get().expect("ctx not initialised")
 }
 
+static REPLAY_PATH: OnceLock<String> = OnceLock::new();
+
+/// Remember the replay file being replayed (so that replaying never rewrites other files).
+pub fn set_replay_path(p: &str) {
+    let _ = REPLAY_PATH.set(p.to_string());
+}
+
 pub fn init_ctx(prop: &'static str, tier: Tier, seed: u64, replay: Option<(String, u64)>) {
     let known = load_known(prop);
     let threads = std::env::var("VERIF_THREADS")
@@ -253,6 +260,14 @@ impl Ctx {
         for (sig, v) in i.violations.iter() {
             let h = hash_str(sig);
             let path = format!("{replay_dir}/{}-{:016x}.json", self.prop, h);
+            if self.replay.is_some() {
+                // replay mode: report against the file being replayed, write nothing
+                let rp = REPLAY_PATH.get().cloned().unwrap_or(path);
+                println!("VIOLATION property={} replay={}", self.prop, rp);
+                println!("  signature: {sig}  (x{})", v.count);
+                code = 1;
+                continue;
+            }
             let body = json!({
                 "property": self.prop,
                 "signature": sig,
